@@ -348,29 +348,21 @@ func (s *NestedConjunctionSearcher) Advance(ctx *search.SearchContext, ID index.
 	if err != nil {
 		return nil, err
 	}
-	// we now follow the the following logic for each searcher:
-	// let S be the length of the ancestry chain for the searcher
-	// let I be the length of the ancestry chain for the given ID
-	// 1. if S > I:
-	//    then we just Advance() the searcher to the given ID if required
-	// 2. else if S <= I:
-	//    then we get the AncestorID at position (S - 1) from the root of
-	//    the given ID's ancestry chain, and Advance() the searcher to
-	//    it if required
+	// Every searcher is advanced to the start of the group the given ID belongs
+	// to, i.e. to the ancestor of ID at the join level (or to ID itself when it
+	// is at or above the join level), never further: a match of this searcher
+	// that lies inside the group but before ID is what may make the group
+	// qualify, so stepping over it would lose the matches of the other
+	// searchers at or after ID. The Next() loop below then skips what is < ID.
+	groupID := ID
+	if len(s.ancestors) > s.joinIdx+1 {
+		groupID = s.toAdvanceID(ancestorFromRoot(s.ancestors, s.joinIdx))
+	}
 	for i, searcher := range s.searchers {
 		if s.currs[i] == nil {
 			return nil, nil // already exhausted, nothing to do
 		}
-		var targetID index.IndexInternalID
-		S := len(s.currAncestors[i])
-		I := len(s.ancestors)
-		if S > I {
-			// case 1: S > I
-			targetID = ID
-		} else {
-			// case 2: S <= I
-			targetID = s.toAdvanceID(ancestorFromRoot(s.ancestors, S-1))
-		}
+		targetID := groupID
 		if s.currs[i].IndexInternalID.Compare(targetID) < 0 {
 			// need to advance this searcher
 			ctx.DocumentMatchPool.Put(s.currs[i])
